@@ -81,10 +81,23 @@ fn prepare_project(file_path: &str, output_dir: Option<&str>) -> CliResult<Prepa
     codegen.scan_for_web(&main_module.ast);
     codegen.scan_for_list_helpers(&main_module.ast);
 
-    let needs_serde = codegen.needs_serde();
-    let needs_tokio = codegen.needs_tokio();
-    let needs_axum = codegen.needs_axum();
-    let rust_crates = collect_rust_crates(&main_module.ast);
+    // Features and `rust::` crates used by dependency modules end up in the same Cargo project as the entry file's.
+    let mut dep_features = IrCodegen::new();
+    let mut rust_crates = collect_rust_crates(&main_module.ast);
+    for module in dep_modules {
+        dep_features.scan_for_serde(&module.ast);
+        dep_features.scan_for_async(&module.ast);
+        dep_features.scan_for_web(&module.ast);
+        for crate_name in collect_rust_crates(&module.ast) {
+            if !rust_crates.contains(&crate_name) {
+                rust_crates.push(crate_name);
+            }
+        }
+    }
+
+    let needs_serde = codegen.needs_serde() || dep_features.needs_serde();
+    let needs_tokio = codegen.needs_tokio() || dep_features.needs_tokio();
+    let needs_axum = codegen.needs_axum() || dep_features.needs_axum();
 
     // Setup project generator
     let mut generator = ProjectGenerator::new(&out_dir, project_name, true);
